@@ -197,6 +197,21 @@ func genWire(g *genCtx) {
 						a[f.N] = fval{b: nulFree(r, f.W+extra)}
 						rt(tn, a)
 					}
+					// ... also when it is too long in octets but not in characters (multi-byte UTF-8)
+					for _, ch := range []string{"é", "中", "😀"} {
+						s := ""
+						for len(s) <= f.W {
+							s += ch
+						}
+						a = cloneAssign(base)
+						a[f.N] = fval{b: []byte(s)}
+						rt(tn, a)
+						if len(s)-len(ch) > 0 { // and a multi-byte value that fits exactly or nearly
+							a = cloneAssign(base)
+							a[f.N] = fval{b: []byte(s[:len(s)-len(ch)])}
+							rt(tn, a)
+						}
+					}
 				case "FB", "FH":
 					for _, fill := range []int{0x00, 0xff, -1, -2} {
 						a := cloneAssign(base)
@@ -400,11 +415,16 @@ func genRelay(g *genCtx, r *rand.Rand, emit func(Case)) {
 					}
 				case "U":
 					if f.N != "cmd" && o[0]+o[1] <= len(img) {
-						m := append([]byte{}, img...)
-						for j := o[0]; j < o[0]+o[1]; j++ {
-							m[j] = 0xff
+						for _, fill := range []byte{0xff, 0x00, 0x01} {
+							if fill != 0xff && o[1] > 1 {
+								continue
+							}
+							m := append([]byte{}, img...)
+							for j := o[0]; j < o[0]+o[1]; j++ {
+								m[j] = fill
+							}
+							relay(tn, m)
 						}
-						relay(tn, m)
 					}
 				case "N", "Z":
 					if o[0]+o[1] <= len(img) {
